@@ -191,8 +191,13 @@ func replay(w *lib.Writer, path string) {
 	switch in.Kind {
 	case "valid":
 		src := in.Prog.bytes()
-		rs := runAll([]Request{{ID: 0, Src: in.RefSrc, WantProto: true, LimitMs: 10000}, {ID: 1, Src: src, WantToks: true, WantProto: true, LimitMs: 10000}}, 1)
+		rs := runAll([]Request{{ID: 0, Src: in.RefSrc, WantProto: true, LimitMs: 10000}, {ID: 1, Src: src, WantToks: true, WantProto: true, LimitMs: 10000},
+			{ID: 2, Src: src, WantToks: true, WantProto: true, Slow: true, LimitMs: 10000}}, 1)
+		id := w.NextID()
 		addValid(w, in, rs[1], rs[0].Proto == rs[1].Proto, "replay", kfValid(*in.Prog))
+		if d := sameObservation(rs[1], rs[2]); d != "" && goFailOf(rs[1]) == "" && goFailOf(rs[2]) == "" {
+			w.GoFail(id, "the outcome depends on how the reader delivers the same bytes (bulk vs one byte per Read): "+d)
+		}
 	case "bytes":
 		rs := runAll([]Request{{ID: 0, Src: in.Src, WantToks: true, LimitMs: 2000}}, 1)
 		addBytes(w, in, rs[0], "replay", kfBytes(in.Src, rs[0]))
@@ -224,43 +229,93 @@ func replay(w *lib.Writer, path string) {
 
 // ---------------- valid stream ----------------
 
+// sameObservation: tokens, lexical error, load class and bytecode of two runs of the same text
+func sameObservation(a, b Result) string {
+	if a.Load != b.Load {
+		return "load class " + loadNames[a.Load] + " vs " + loadNames[b.Load]
+	}
+	if a.Proto != b.Proto {
+		return "bytecode differs"
+	}
+	if len(a.Toks) != len(b.Toks) || (a.LexErr == nil) != (b.LexErr == nil) {
+		return fmt.Sprintf("token streams differ (%d vs %d tokens)", len(a.Toks), len(b.Toks))
+	}
+	for i := range a.Toks {
+		if a.Toks[i].Ty != b.Toks[i].Ty || a.Toks[i].Line != b.Toks[i].Line || string(a.Toks[i].Text) != string(b.Toks[i].Text) {
+			return fmt.Sprintf("token %d differs", i)
+		}
+	}
+	if a.LexErr != nil && (a.LexErr.Kind != b.LexErr.Kind || a.LexErr.Line != b.LexErr.Line || string(a.LexErr.Text) != string(b.LexErr.Text)) {
+		return "lexical errors differ"
+	}
+	return ""
+}
+
+// validJob: one layout of one program; every layout is observed twice, through LoadString /
+// strings.Reader and through LState.Load with a reader that returns one byte per Read.
+type validJob struct {
+	in      In
+	class   string
+	ref     int  // index of the reference request (first layout of stream A)
+	useSlow bool // the observation handed to the model is the one made through the one-byte reader
+}
+
+func runValidJobs(w *lib.Writer, jobs []validJob, srcs [][]byte) {
+	rqs := make([]Request, 0, 2*len(jobs))
+	for _, src := range srcs {
+		rqs = append(rqs, Request{ID: len(rqs), Src: HB(src), WantToks: true, WantProto: true, LimitMs: 8000},
+			Request{ID: len(rqs) + 1, Src: HB(src), WantToks: true, WantProto: true, Slow: true, LimitMs: 8000})
+	}
+	res := runAll(rqs, workers)
+	for i, j := range jobs {
+		fast, slow, ref := res[2*i], res[2*i+1], res[2*j.ref]
+		obs := fast
+		class := j.class
+		if j.useSlow {
+			obs = slow
+			class += "/1-byte-reader"
+		}
+		same := obs.Load == loadFunction && ref.Load == loadFunction && obs.Proto == ref.Proto
+		id := w.NextID()
+		addValid(w, j.in, obs, same, class, kfValid(*j.in.Prog))
+		if goFailOf(fast) == "" && goFailOf(slow) == "" {
+			if d := sameObservation(fast, slow); d != "" {
+				w.GoFail(id, "the outcome depends on how the reader delivers the same bytes (bulk vs one byte per Read): "+d)
+			}
+		}
+	}
+}
+
 func runValid(w *lib.Writer, r *lib.Rand, tier string) {
 	nprog := 300
 	if tier == "thorough" {
 		nprog = 6000
 	}
-	type job struct {
-		in    In
-		class string
-		ref   int // index of the reference request (first layout of stream A)
-	}
-	var rqs []Request
-	var jobs []job
+	var jobs []validJob
+	var srcs [][]byte
 	for i := 0; i < nprog; i++ {
 		pr := r.Fork()
 		a, b := genProgram(pr, pr.Pick(3, 4, 2, 1)*pr.Range(1, 4))
-		ref := len(rqs)
+		ref := len(jobs)
 		var refSrc []byte
 		for k, v := range []struct {
 			toks  []Lexeme
 			style int
 			class string
-		}{{a, styleCompact, "valid/compact"}, {a, stylePlain, "valid/plain"}, {a, styleWild, "valid/wild"}, {b, styleWild, "valid/semis+parens/wild"}} {
+			slow  bool
+		}{{a, styleCompact, "valid/compact", false}, {a, stylePlain, "valid/plain", false}, {a, styleWild, "valid/wild", false},
+			{b, styleWild, "valid/semis+parens/wild", true}} {
 			p := layout(pr.Fork(), v.toks, v.style)
 			src := p.bytes()
 			if k == 0 {
 				refSrc = src
 			}
 			pp := p
-			jobs = append(jobs, job{In{Kind: "valid", Prog: &pp, RefSrc: HB(refSrc)}, v.class, ref})
-			rqs = append(rqs, Request{ID: len(rqs), Src: HB(src), WantToks: true, WantProto: true, LimitMs: 5000})
+			jobs = append(jobs, validJob{In{Kind: "valid", Prog: &pp, RefSrc: HB(refSrc)}, v.class, ref, v.slow})
+			srcs = append(srcs, src)
 		}
 	}
-	res := runAll(rqs, workers)
-	for i, j := range jobs {
-		same := res[i].Load == loadFunction && res[j.ref].Load == loadFunction && res[i].Proto == res[j.ref].Proto
-		addValid(w, j.in, res[i], same, j.class, kfValid(*j.in.Prog))
-	}
+	runValidJobs(w, jobs, srcs)
 	w.Meta.Extra["valid_programs"] = nprog
 }
 
